@@ -132,7 +132,7 @@ def run(tier):
     n_fixed = len(plans)
     # the same structures over other boundary alphabets, started from a non-empty, churned heap
     rng = A.rng_for(chk, "c03")
-    n_rot = 1200 if quick else 12000
+    n_rot = 1200 if quick else 5000
     for i in range(n_rot):
         h = hists[rng.randrange(len(hists))]
         al, rs = random_alphabet(rng, k, nalloc, nresize, big_ok=(i % 4 == 0))
@@ -140,7 +140,7 @@ def run(tier):
                       "oseq": [rng.choice("bad") for _ in range(4)], "refuse_each": i % 3 == 0,
                       "warm": rng.randrange(1, 1 << 30) if i % 2 == 0 else 0, "classes": classes, "src": "tlc-rotated"})
     # seeded random long histories with random placement and random refusals
-    n_rand, n_ops = (100, 300) if quick else (1500, 600)
+    n_rand, n_ops = (100, 300) if quick else (1000, 600)
     rand_plans = []
     for i in range(n_rand):
         big = i % 8 == 0
@@ -160,22 +160,32 @@ def run(tier):
             plans.append({"kind": "hist", "slots": nslots, "ops": ops, "os": rng.choice("bad"), "refuse_each": True,
                           "classes": classes, "src": "refuse-every-position"})
 
-    jobs = [("debug", bin_dbg, plans + rand_plans)]
-    jobs.append(("release", bin_rel, (plans[n_fixed:] if quick else plans) + rand_plans))
-    total_bad = 0
+    # debug build (internal assertions on): everything; release build: the sampled parts
+    # (re-bound sequences, refusal at every position, random histories).  Plans are processed in
+    # chunks so that memory stays bounded in the thorough tier.
+    rel_fixed = []
+    jobs = [("debug", bin_dbg, plans + rand_plans), ("release", bin_rel, rel_fixed + plans[n_fixed:] + rand_plans)]
+    CH = 6000
+    work = [(build, bindir, pl[i:i + CH], i) for build, bindir, pl in jobs for i in range(0, len(pl), CH)]
     nontrivial = set()
-    runs_by_build = {}
+    first_runs = []
     stats = {"runs": 0, "events": 0, "ops": 0, "os_requests": 0, "refusals": 0, "null_results": 0, "panics": 0,
              "crashes": 0, "unmaps": 0}
     t0 = time.time()
-    drv = [(build, pl, pool.submit(A.run_driver, chk, bindir, pl, build)) for build, bindir, pl in jobs]
-    for build, pl, fut in drv:
-        events, crashes = fut.result()
+    nxt = pool.submit(A.run_driver, chk, work[0][1], work[0][2], "%s_%d" % (work[0][0], work[0][3])) if work else None
+    for wi, (build, bindir, pl, off) in enumerate(work):
+        events, crashes = nxt.result()
+        if wi + 1 < len(work):
+            w2 = work[wi + 1]
+            nxt = pool.submit(A.run_driver, chk, w2[1], w2[2], "%s_%d" % (w2[0], w2[3]))
         t1 = time.time()
-        runs, bad = A.judge(chk, events, build, procs=6)
-        core.log("%s build: driver done at +%.1fs (%d plans, %d events), TLC judge %.1fs" % (build, t1 - t0, len(pl), len(events), time.time() - t1))
-        runs_by_build[build] = runs
-        total_bad += A.report(chk, runs, bad, pl, A.C03_INV, k, build)
+        runs, bad = A.judge(chk, events, "%s_%d" % (build, off), procs=6)
+        core.log("%s build, plans %d..%d: driver done at +%.1fs (%d events), TLC judge %.1fs" % (
+            build, off, off + len(pl), t1 - t0, len(events), time.time() - t1))
+        A.report(chk, runs, bad, pl, A.C03_INV, k, build)
+        if not first_runs:
+            first_runs = [(pl[r[0]["plan"]], r) for r in runs[:2]]
+            good_runs = runs
         stats["crashes"] += len(crashes)
         stats["runs"] += len(runs)
         stats["events"] += len(events)
@@ -186,6 +196,7 @@ def run(tier):
             reuse = False
             refused = False
             after_refusal_ok = False
+            cur = "none"
             for e in r:
                 ev = e["ev"]
                 if ev == "call":
@@ -218,13 +229,14 @@ def run(tier):
             plan = pl[r[0]["plan"]]
             if maxlive >= 2 and reuse:
                 nontrivial.add((A.history_key(plan), r[0].get("variant"), "refusal-survived" if after_refusal_ok else "plain"))
+        if wi == 0:
+            st = selftest_judge(chk, good_runs)
+        del events, runs
     chk.evaluations = stats["ops"]
     chk.nontrivial = len(nontrivial)
-    for r in runs_by_build["debug"][:2]:
-        chk.sample({"plan": plans[r[0]["plan"]]["ops"], "os": plans[r[0]["plan"]]["os"],
-                    "events": [A.slim(e) for e in r[1:8]]})
+    for plan, r in first_runs:
+        chk.sample({"plan": plan["ops"], "os": plan["os"], "events": [A.slim(e) for e in r[1:8]]})
 
-    st = selftest_judge(chk, runs_by_build["debug"])
     res, cov, probes = fut_design.result()
     pool.shutdown()
     silent = [a for a in A.ACTIONS if cov.get(a, 0) == 0]
